@@ -75,3 +75,40 @@ pub fn tapes_from_bytes(bytes: &[u8], k: usize) -> Vec<Vec<u16>> {
     out.push(body[prev..].to_vec());
     out
 }
+
+/// Inverse of `tapes_from_bytes` (for seed corpora).
+pub fn tapes_to_bytes(tapes: &[Vec<u16>]) -> Vec<u8> {
+    let k = tapes.len();
+    let body_len: usize = tapes.iter().map(|t| t.len()).sum();
+    let mut words: Vec<u16> = Vec::with_capacity(k - 1 + body_len);
+    let mut cum = 0usize;
+    for t in &tapes[..k - 1] {
+        cum += t.len();
+        // smallest h with (h * (body_len + 1)) >> 16 == cum
+        let h = (cum * 65536).div_ceil(body_len + 1);
+        words.push(h.min(65535) as u16);
+    }
+    for t in tapes {
+        words.extend_from_slice(t);
+    }
+    let mut out = Vec::with_capacity(words.len() * 2);
+    for w in words {
+        out.extend_from_slice(&w.to_le_bytes());
+    }
+    out
+}
+
+#[cfg(test)]
+mod tests {
+    use super::*;
+    #[test]
+    fn roundtrip() {
+        let tapes = vec![vec![1u16, 2, 3], vec![], vec![9u16; 17], vec![5]];
+        for k in 1..=4 {
+            let t = tapes[..k].to_vec();
+            let total: usize = t.iter().map(|x| x.len()).sum();
+            if total < k { continue; }
+            assert_eq!(tapes_from_bytes(&tapes_to_bytes(&t), k), t);
+        }
+    }
+}
